@@ -72,8 +72,15 @@ def resolver_correspondence(ctx, progs, found_by):
             continue
         except SyntaxError:
             continue
-        ordered, index, enc = rcorr.dump_namespaces(m)
-        qs = rcorr.queries_of(m, index)
+        try:
+            ordered, index, enc = rcorr.dump_namespaces(m)
+            qs = rcorr.queries_of(m, index)
+            [rcorr.real_home(x, ns, ordered) for x, ns in qs[:1]]
+        except RecursionError:
+            continue
+        except Exception as e:
+            ctx.add_broken('correspondence', 'resolve.get:' + ident, 'could not observe get_binding: %s: %s' % (e.__class__.__name__, str(e)[:200]))
+            continue
         if not qs:
             continue
         reqs.append('resolve.get %s %s' % (enc, sexp.lst(['(%s %d)' % (sexp.enc_str(x), index[id(ns)]) for x, ns in qs])))
